@@ -278,6 +278,23 @@ func (p LinearPacer) Pace(elapsed time.Duration, hits uint64) (time.Duration, bo
 		return 0, true
 	}
 
+	if p.Slope < 0 && hits > 0 {
+		// With a decreasing rate the linear extrapolation below overshoots the
+		// schedule, and once the rate has dropped to zero it fires without
+		// waiting. Solve hits(t) = hits+1 exactly instead, and stop the attack
+		// when the schedule never gets that far.
+		a, b := p.Slope, p.StartAt.hitsPerNs()*1e9
+		disc := b*b + 2*a*float64(hits+1)
+		if disc < 0 {
+			return 0, true
+		}
+		due := math.Ceil(2 * float64(hits+1) / (b + math.Sqrt(disc)) * 1e9)
+		if due >= math.MaxInt64 {
+			return 0, true
+		}
+		return time.Duration(due) - elapsed, false
+	}
+
 	expectedHits := p.hits(elapsed)
 	if hits == 0 || hits < uint64(expectedHits) {
 		// Running behind, send next hit immediately.
